@@ -62,6 +62,8 @@ taking:
 	}
 }
 
+var verifTakeFixed bool
+
 func verifC09(senders, per, subs, buffer int, takeMax int) {
 	ctx := context.Background()
 	t := NewTracer(ctx)
@@ -81,7 +83,10 @@ func verifC09(senders, per, subs, buffer int, takeMax int) {
 	}
 	var xs [2]verifSub
 	for u := 0; u < subs; u++ {
-		take := verifNondetInt("take", 0, takeMax)
+		take := takeMax
+		if !verifTakeFixed {
+			take = verifNondetInt("take", 0, takeMax)
+		}
 		go xs[u].run(t, buffer, take, stop)
 	}
 	if subs > 0 {
@@ -129,6 +134,14 @@ func verifC09(senders, per, subs, buffer int, takeMax int) {
 
 func VerifC09_S1x1_U1_B0() { verifC09(1, 1, 1, 0, 1) }
 func VerifC09_S1x1_U1_B1() { verifC09(1, 1, 1, 1, 1) }
+func VerifC09_S1x1_U1_B0_T0() {
+	verifTakeFixed = true
+	verifC09(1, 1, 1, 0, 0)
+}
+func VerifC09_S1x1_U1_B0_T1() {
+	verifTakeFixed = true
+	verifC09(1, 1, 1, 0, 1)
+}
 func VerifC09_S1x2_U0()    { verifC09(1, 2, 0, 0, 0) }
 func VerifC09_S2x1_U0()    { verifC09(2, 1, 0, 0, 0) }
 func VerifC09_S2x1_U1_B1() { verifC09(2, 1, 1, 1, 2) }
